@@ -57,6 +57,22 @@ func c03Directed(t, C, S int) c03Case {
 	}}
 }
 
+// c03Takeover: empty destinations (no capacity, one frame of capacity) take a large source; afterwards
+// source and destination are stamped in turn: the destination must have moved to storage of its own.
+func c03Takeover(t, C, S int) c03Case {
+	return c03Case{Type: tn(t), C: C, P: S, Directed: true, Ops: []wop{
+		{K: "alloc", V: 0, A: S, B: S}, {K: "stamp", V: 0},
+		{K: "alloc", V: 1, A: 0, B: 1},
+		{K: "append", V: 1, W: 0},
+		{K: "stamp", V: 0}, {K: "stamp", V: 1}, {K: "stamp", V: 0},
+		{K: "alloc", V: 2, A: 0, B: 0},
+		{K: "append", V: 2, W: 0},
+		{K: "stamp", V: 2}, {K: "stamp", V: 0},
+		{K: "append", V: 2, W: 1}, // and once more onto the now exactly full destination
+		{K: "stamp", V: 1}, {K: "stamp", V: 2},
+	}}
+}
+
 func c03Run(cs c03Case) (fs []F, ok bool, grew, inplace int) {
 	ok = true
 	fs = core.Guard("Append", func() []F {
@@ -262,15 +278,34 @@ func init() {
 					}
 				}
 			}
-			c.ParallelFor(len(dir), func(i int) {
-				fs, ok, g, ip := c03Run(dir[i])
-				if ok {
-					c.Check(dir[i], true, fs)
-					c.Add("states", 1)
-					c.Add("transitions", int64(g+ip))
-					c.Add("traces_validated_against_impl", 1)
+			for _, t := range []int{dyn.Int8, dyn.Float64} { // empty destinations taking sources of every size class
+				for C := 1; C <= 2; C++ {
+					for _, S := range []int{3, 300, 9000, 40000, 70000, 140000} {
+						dir = append(dir, c03Takeover(t, C, S))
+					}
 				}
-			})
+			}
+			runDir := func(dir []c03Case) {
+				c.ParallelFor(len(dir), func(i int) {
+					fs, ok, g, ip := c03Run(dir[i])
+					if ok {
+						c.Check(dir[i], true, fs)
+						c.Add("states", 1)
+						c.Add("transitions", int64(g+ip))
+						c.Add("traces_validated_against_impl", 1)
+					}
+				})
+			}
+			runDir(dir)
+			// the process environment: long appends under GOMAXPROCS 1, 2, 3 and 48
+			envDir := []c03Case{c03Directed(dyn.Float64, 2, 40000), c03Directed(dyn.Int8, 3, 70001), c03Takeover(dyn.Int16, 2, 40001), c03Takeover(dyn.Int8, 1, 140001)}
+			for _, procs := range envProcs {
+				if c.Expired() {
+					break
+				}
+				c.WithProcs(procs, func() { runDir(envDir) })
+			}
+			c.Set("gomaxprocs_values_for_long_appends", envProcs)
 			// special values, by bit pattern, for every element type of the facade
 			vt := valTypes()
 			c.ParallelFor(len(vt), func(i int) {
